@@ -233,14 +233,28 @@ class DataConnection(Connection, abc.ABC):
 
         try:
             async with atimeout(timeout):
-                self._reader, self._writer = await asyncio.open_connection(
+                reader, writer = await asyncio.open_connection(
                     self.hostname, self.port)
+
+        except asyncio.CancelledError:
+            # The connecting task got cancelled: do not leave the connection
+            # in CONNECTING state
+            await self.disconnect(CloseReason.CONNECT_FAILED)
+            raise
 
         except (Exception, asyncio.TimeoutError) as exc:
             await self.disconnect(CloseReason.CONNECT_FAILED)
             raise ConnectionFailedError(f"{self.hostname}:{self.port} : failed to connect") from exc
 
         else:
+            if self.state != ConnectionState.CONNECTING:
+                # The connection was disconnected while it was connecting,
+                # drop the freshly opened socket
+                writer.close()
+                raise ConnectionFailedError(
+                    f"{self.hostname}:{self.port} : disconnected while connecting")
+
+            self._reader, self._writer = reader, writer
             adapter.debug("connected", extra=self.__dict__)
             await self.set_state(ConnectionState.CONNECTED)
 
